@@ -676,9 +676,62 @@ pub fn part_mixed(out: &mut Out, o: &Opts) {
     }
 }
 
+/// many variables: chains and lists over 33..130 variable ids, sizes the truth-table literals cannot reach
+pub fn part_wide(out: &mut Out, o: &Opts) {
+    let mut g = Gen::new(out);
+    let ns: &[usize] = if o.thorough { &[31, 32, 33, 63, 64, 65, 66, 100, 127, 128, 129, 200] } else { &[33, 64, 65, 70, 129] };
+    let var = |i: usize| Sx::op("var", vec![Sx::n(i)]);
+    let chain = |op: &str, n: usize, neg_every: usize| -> Sx {
+        let mut e = var(n - 1);
+        for i in (0..n - 1).rev() {
+            let lit = if neg_every > 0 && i % neg_every == 2 { Sx::op("not", vec![var(i)]) } else { var(i) };
+            e = Sx::op(op, vec![lit, e]);
+        }
+        e
+    };
+    for &n in ns {
+        let conj = chain("and", n, 5);
+        let disj = chain("or", n, 7);
+        g.case(conj.clone());
+        g.case(disj.clone());
+        g.case(Sx::op("not", vec![conj.clone()]));
+        g.case(Sx::op("imp", vec![conj.clone(), disj.clone()]));
+        g.case(Sx::op("eq", vec![conj.clone(), Sx::op("not", vec![disj.clone()])]));
+        g.case(Sx::op("model", vec![conj.clone()]));
+        g.case(Sx::op("model", vec![disj.clone()]));
+        for f in ["t", "f"] {
+            g.case(Sx::op("retain", vec![Sx::a(f), conj.clone()]));
+            g.case(Sx::op("retain", vec![Sx::a(f), disj.clone()]));
+        }
+        let all_ids = Sx::l((0..n).map(Sx::n).collect());
+        let odd_ids = Sx::l((0..n).filter(|i| i % 2 == 1).map(Sx::n).collect());
+        let rev_ids = Sx::l((0..n).rev().map(Sx::n).collect());
+        g.case(Sx::op("ex", vec![odd_ids.clone(), conj.clone()]));
+        g.case(Sx::op("all", vec![odd_ids, disj.clone()]));
+        g.case(Sx::op("ex", vec![rev_ids, conj.clone()]));
+        g.case(Sx::op("all", vec![all_ids, disj.clone()]));
+        g.case(Sx::op("infer", vec![conj.clone(), Sx::n(n - 1)]));
+        g.case(Sx::op("infer", vec![conj.clone(), Sx::n(2)]));
+        g.case(Sx::op("fp", vec![Sx::a("F"), Sx::op("or", vec![Sx::a("X"), conj.clone()])]));
+    }
+    // counting over 8..13 plain variables with large ids
+    for k in [8usize, 11, 13] {
+        let vs = Sx::l((0..k).map(|i| var(50 + 3 * i)).collect());
+        for (op, n) in [("aln", k as i64 / 2), ("amn", 1), ("exn", k as i64 - 1), ("aln", k as i64 + 1), ("exn", 0)] {
+            g.case(Sx::op(op, vec![vs.clone(), Sx::n(n)]));
+        }
+        let l = Sx::l((0..k / 2).map(|i| var(50 + 3 * i)).collect());
+        let r = Sx::l((k / 2..k).map(|i| var(50 + 3 * i)).collect());
+        for op in ["cleq", "clt", "cgeq", "cgt", "ceq"] {
+            g.case(Sx::op(op, vec![l.clone(), r.clone()]));
+        }
+    }
+}
+
 pub fn main(out: &mut Out, o: &Opts) {
     for p in o.parts.clone() {
         match p.as_str() {
+            "wide" => part_wide(out, o),
             "conn" => part_conn(out, o),
             "quant" => part_quant(out, o),
             "count" => part_count(out, o),
